@@ -714,17 +714,6 @@ func (env *SpecEnv) evalCall(x *Expr) Value {
 			env.errorf("calls() needs a callee name")
 		}
 		k := callCountKey(x.Args[0].Name)
-		found := false
-		if e.contract != nil {
-			for _, cc := range e.contract.CallCounts {
-				if cc.Callee == x.Args[0].Name {
-					found = true
-				}
-			}
-		}
-		if !found {
-			env.errorf("no callcount declared for %s", x.Args[0].Name)
-		}
 		a := env.eval(x.Args[1])
 		return Value{term: sel(e.ghostGet(env.cur, k), a.term), typ: mathInt}
 	case "dqlen", "dqat":
